@@ -580,6 +580,25 @@ def gen_node(draw, base, depth, lazy_ok=False):
     # an alternation below a sequence/quantifier is wrapped by the callers; as a child of 'alt' flatten is not needed
     return ('alt', [b if b[0] != 'alt' else ('grp', b) for b in br])
 
+def count_groups(ast):
+    """number of capturing groups of the non-schema rendering (every 'grp' node, numbered in order of its opening parenthesis)"""
+    return sum(1 for n in walk(ast) if n[0] == 'grp')
+
+# hand-written capture shapes for the Match-reuse lane: (pattern, subjects ordered so that consecutive calls alternate between
+# "group takes part" and "group is skipped")
+CAPTURE_HAND = [
+    ('(a)?b\\1', ['aba', 'b', 'ab', 'bb', 'abab', 'a', 'xb']),
+    ('(a)|(b)', ['a', 'b', 'ca', 'cb', 'c', 'ab']),
+    ('(x(y)?)*z', ['xyxz', 'z', 'xyz', 'xz', 'xyxyz', 'y']),
+    ('((a)|(b))+c', ['abc', 'bc', 'ac', 'c', 'bac', 'aabc']),
+    ('(a)(b)?(c)?', ['abc', 'a', 'ab', 'ac', 'xa', 'b']),
+    ('(a)?(b)?\\2\\1', ['abba', '', 'bb', 'aa', 'ab', 'abab']),
+    ('a', ['a', 'b', 'ba']),
+    ('(((a)))?b', ['ab', 'b', 'aab', 'a']),
+    ('(a|(b))*c\\2', ['abcb', 'ac', 'bcb', 'c', 'aac', 'bc']),
+    ('(\\d)?(\\s)?x\\1', ['1x1', 'x', ' x', '1 x1', '9x', '1x2']),
+]
+
 HAND = [
     # hand-written shapes from the design (nested counted groups, overlapping alternatives, nullable loops)
     ('seq', [('rep', ('grp', ('rep', ('lit', 'a', False), 2, 3, 'n,m', False)), 2, 2, 'n', False)]),
